@@ -95,15 +95,28 @@ class Runner:
 
     def _about_to_finish(self):
         a = self.env.audio
+        if a.uri is None or a.state == core_env.STOPPED or a.atf_done:
+            return
+        old = a.uri
+        a.uri = None
+        self.core.playback._on_about_to_finish()
         if a.uri is not None and a.state == core_env.PLAYING:
+            a.fresh = False
+            a.queue.append(("position_changed", 0))
+            a.queue.append(("stream_changed", a.uri))
+        elif a.uri is not None:
+            pass  # paused: the preloaded stream is announced when playback resumes
+        elif a.state == core_env.PLAYING:
+            a.queue.append(("reached_end_of_stream",))
+        else:
+            a.uri = old  # paused, nothing preloaded: the old stream is left to play out
+            a.atf_done = True
+
+    def _end_of_stream(self):
+        a = self.env.audio
+        if a.uri is not None and a.state == core_env.PLAYING and a.atf_done:
             a.uri = None
-            self.core.playback._on_about_to_finish()
-            if a.uri is None:
-                a.queue.append(("reached_end_of_stream",))
-            else:
-                a.fresh = False
-                a.queue.append(("position_changed", 0))
-                a.queue.append(("stream_changed", a.uri))
+            a.queue.append(("reached_end_of_stream",))
 
     def _load(self, cov):
         env = self.env
@@ -165,6 +178,8 @@ class Runner:
             return ("none", self._deliver())
         if k == "atf":
             return ("none", self._about_to_finish())
+        if k == "eos":
+            return ("none", self._end_of_stream())
         if k == "tick":
             a = env.audio
             if a.uri is not None and a.state == core_env.PLAYING:
@@ -178,6 +193,12 @@ class Runner:
             return ("none", core._save_state())
         if k == "load":
             return ("none", self._load(op[1]))
+        if k == "sethistory":
+            from mopidy.models import Ref
+
+            core.history._history = [(1000 + i, Ref.track(uri=env.uri_of(t), name=f"n{t}"))
+                                     for i, t in enumerate(op[1])]
+            return ("none", None)
         raise AssertionError(op)
 
     def step(self, op):
@@ -189,6 +210,13 @@ class Runner:
         env.budget = b0 + self.budget_fn(self.core.tracklist.get_length())
         diverged = False
         exc_name = None
+        import signal
+
+        def _alarm(_sig, _frm):
+            raise core_env.BudgetExceeded
+
+        old_handler = signal.signal(signal.SIGALRM, _alarm)
+        signal.setitimer(signal.ITIMER_REAL, 8.0)
         try:
             kind, val = self._call(op)
             if kind == "none":
@@ -205,6 +233,9 @@ class Runner:
         except Exception as e:  # noqa: BLE001
             exc_name = type(e).__name__
             ret = [10 + EXN_CODE.get(exc_name, 9)]
+        finally:
+            signal.setitimer(signal.ITIMER_REAL, 0)
+            signal.signal(signal.SIGALRM, old_handler)
         op_calls = env.backend_calls - b0
         env.budget = None
         core = self.core
@@ -244,7 +275,7 @@ class Runner:
             "modes": (core.tracklist.get_consume(), core.tracklist.get_random(),
                       core.tracklist.get_repeat(), core.tracklist.get_single()),
             "volume": env.mixer_volume, "mute": env.mixer_mute, "tl_len_before": None,
-            "protocol_violations": a.protocol_violations,
+            "protocol_violations": a.protocol_violations, "atf_done": a.atf_done,
         })
         return obs, diverged
 
@@ -315,10 +346,14 @@ def g_op(op):
         return f"SetMute {g_bool(op[1])}"
     if k == "atf":
         return "AboutToFinish"
+    if k == "eos":
+        return "EndOfStream"
     if k == "tick":
         return f"Tick {g_z(op[1])}"
     if k == "load":
         return "Load (mkCov " + " ".join(g_bool(b) for b in op[1]) + ")"
+    if k == "sethistory":
+        return f"SetHistory {g_list([g_z(x) for x in op[1]])}"
     raise AssertionError(op)
 
 
